@@ -190,8 +190,45 @@ def check_C03(chk):
                        "variants / drop handle / drop carrying receiver over <= 6 channels (acyclic embeddings), default and in-process builds; every result is "
                        "compared with (a) a reference count of live handles and in-flight references kept by the generator, (b) the Unix model and (c) the Ideal "
                        "model evaluated by coqc, plus the descriptor ledger; non-trivial = programs with at least one message carrying endpoints", False)
-    chk.assumptions += ["that a thread BLOCKED in recv is woken when the last sender disappears is kernel behaviour (recvmsg returns 0): exercised by the "
-                        "conc/crash drivers, not by these single-threaded programs"]
+    # races of the final drop with a blocked, timed or polling receive (wake driver)
+    bins = build_all(chk, ["default", "inprocess"])
+    if all(bins.values()):
+        rng = random.Random(chk.seed + 3)
+        cases, nid = [], itertools.count(1)
+        for _ in range(400 if thorough else 60):
+            how = rng.choice(["thread", "thread", "fork", "carrier"])
+            cases.append({"id": next(nid), "how": how, "mode": rng.choice(["recv", "timed", "poll"]), "delay_us": rng.choice([0, 50, 300, 2000, 9000]),
+                          "nmsg": rng.choice([0, 0, 1, 5]), "clones": rng.randint(1, 4) if how == "thread" else 1})
+        lines = ["id=%d how=%s mode=%s delay_us=%d nmsg=%d clones=%d" % (c["id"], c["how"], c["mode"], c["delay_us"], c["nmsg"], c["clones"]) for c in cases]
+        for fl in ("default", "inprocess"):
+            sel = [(l, c) for l, c in zip(lines, cases) if not (fl == "inprocess" and c["how"] == "fork")]
+            chunks = [sel[i::6] for i in range(6)]
+
+            def run(ch, fl=fl):
+                recs, _, rc, err = C.run_harness(bins[fl], "wake", [l for l, _ in ch], shim=False, timeout=600)
+                return {r["id"]: r for r in recs if r.get("kind") == "wake"}
+            got = {}
+            with concurrent.futures.ThreadPoolExecutor(max_workers=6) as ex:
+                for g in ex.map(run, chunks):
+                    got.update(g)
+            for l, c in sel:
+                r = got.get(c["id"])
+                why = None
+                if r is None:
+                    why = "no record (process died)"
+                elif r["out"] == "Hang":
+                    why = "the receive never woke up after the last sender reference had gone (watchdog 8 s)"
+                elif r["out"] != "Disconnected":
+                    why = "the receive ended with %s instead of 'disconnected'" % r["out"]
+                elif r["got"] != list(range(c["nmsg"])):
+                    why = "'disconnected' was reported before all %d pending messages had been delivered (got %s)" % (c["nmsg"], r["got"])
+                elif c["how"] != "carrier" and r["us"] + 200 < c["delay_us"]:
+                    why = "'disconnected' after %d us although a sender handle existed for %d us" % (r["us"], c["delay_us"])
+                if why:
+                    chk.failing_input(why, {"build": fl, "scenario": l, "observed": r}, key="wake:%s:%s" % (fl, l))
+            chk.coverage.setdefault("wake_scenarios", {})[fl] = len(sel)
+    chk.assumptions += ["that a thread blocked in recvmsg/poll is woken when the last sender reference disappears is kernel behaviour (modelled as: the receive step is enabled "
+                        "and yields Disconnected); it is exercised by the wake driver under a watchdog"]
 
 
 def check_C19(chk):
